@@ -26,6 +26,34 @@ def setup_writebuf(ip, st, fr, case):
     return {'g_w': data}
 
 
+def m_send(ip, st, args, kwargs):
+    """assumed model of SSH_Socket.send: the bytes handed to the socket are recorded in ghost `sent`"""
+    st.ghost['sent'] = st.ghost['sent'] + (args[1],)
+    return (0, None)
+
+
+def setup_socket_w(ip, st, fr, case):
+    data = fresh('wdata', 'bytes')
+    buf = st.new_obj('<BytesIO>', {'data': data, 'pos': mk(z3.Length(data.t), 'int')})
+    fr['self'] = st.new_obj('SSH_Socket', {'_wbuf': buf})
+    st.ghost['sent'] = ()
+    ip.models['SSH_Socket.send'] = m_send
+    return {'g_w': data}
+
+
+def setup_socket_r(ip, st, fr, case):
+    from pyvc.values import ClassRef
+    out = ip.instantiate(ClassRef('OutputBuffer'), [], {}, st)
+    fr = st.frame          # (inlining a call replaces the state's frame dictionaries)
+    setup_readbuf(ip, st, fr, dict(case, **{'$cls': 'SSH_Socket'}))
+    o = st.mut(fr['self'])
+    o.f['_SSH_Socket__outputbuffer'] = out
+    o.f['_SSH_Socket__block_size'] = 8
+    o.f['_SSH_Socket__sock'] = None
+    fr['g_pl'], fr['g_pad'], fr['g_padbytes'] = fresh('pl', 'bytes'), fresh('pad', 'int'), fresh('padbytes', 'bytes')
+    return {'g_pl': fr['g_pl'], 'g_pad': fr['g_pad'], 'g_padbytes': fr['g_padbytes']}
+
+
 RB_SETUP = "rb = ReadBuf(g_data); _ = rb.read(g_pos)"
 WB_SETUP = "wb = WriteBuf(); _ = wb.write(g_w)"
 RB_LET = {'D': 'self._buf.data', 'P': 'self._buf.pos'}
@@ -108,6 +136,31 @@ def units():
                            modifies=['self._wbuf'], result='bytes', raises={},
                            ensures=["result == W", "self._wbuf.data == b''", "self._wbuf.pos == 0"]),
                   harness=dict(imports=IMPORTS, setup=WB_SETUP, call='wb.write_flush()', self='wb')))
+    # ------------------------------------------------------------------ RFC 4253 section 6 framing
+    U.append(Unit(Contract(
+        'SSH_Socket.send_packet', setup=setup_socket_w, let={'PAY': 'self._wbuf.data'},
+        requires=WB_REQ + ["len(self._wbuf.data) < 4294967280"], raises={},      # the uint32 length field bounds the payload
+        ensures=["len(ghost('sent')) == 1",
+                 "len(ghost('sent')[0]) % 8 == 0",                                            # total length multiple of 8
+                 "len(ghost('sent')[0]) >= 16",
+                 "ghost('sent')[0][0:4] == u32(len(ghost('sent')[0]) - 4)",                   # packet_length field
+                 "ghost('sent')[0][4] >= 4 and ghost('sent')[0][4] <= 255",                   # at least four bytes of padding
+                 "len(ghost('sent')[0]) == 4 + 1 + len(PAY) + ghost('sent')[0][4]",           # consistent length fields
+                 "ghost('sent')[0][5:5 + len(PAY)] == PAY",                                   # payload unchanged
+                 "self._wbuf.data == b''"]),
+        harness=None))
+    U.append(Unit(Contract(
+        'SSH_Socket.read_packet', setup=setup_socket_r, cases=[dict(sshv=2)], let=RB_LET,
+        requires=RB_REQ + ["len(g_pl) >= 1 and 0 <= g_pad and g_pad < 256 and len(g_padbytes) == g_pad",
+                           "(5 + len(g_pl) + g_pad) % 8 == 0 and 1 + len(g_pl) + g_pad < 4294967296",
+                           "self._buf.data[self._buf.pos:] == u32(1 + len(g_pl) + g_pad) + u8(g_pad) + g_pl + g_padbytes"],
+        raises={'SystemExit': "False"},
+        ensures=["result == (g_pl[0], g_pl[1:])", "self._buf.pos == len(D)", "self._buf.data == D"],
+        use_entry=["u32_val(1 + len(g_pl) + g_pad)"],
+        cuts={"if check_size % self.__block_size != 0:": ["packet_length == 1 + len(g_pl) + g_pad", "padding_length == g_pad",
+                                                          "payload_length == len(g_pl)", "self._buf.pos == P + 5", "self._buf.data == D"],
+              "packet_type = ord(payload[0:1])": ["payload == g_pl", "self._buf.pos == P + 5 + len(g_pl)", "self._buf.data == D"]}),
+        harness=None))
     # ------------------------------------------------------------------ round trips (lemmas over the contracts above)
     def rt(name, params, requires, ensures, use=()):
         U.append(Unit(Contract('rt_codec:' + name, params=params, requires=requires, ensures=ensures, raises={}, use=use),
@@ -121,6 +174,15 @@ def units():
     rt('rt_string_byte', dict(s='bytes', b='int'), ["len(s) < 4294967296 and 0 <= b and b < 256"],
        ["result == (s, b)"], use=["u32_val(len(s))"])
     return U
+
+
+def stubs():
+    """assumed contracts of the socket layer (external: any behaviour allowed by these contracts is covered)"""
+    return [Contract('SSH_Socket.ensure_read', mode='contract', let=RB_LET, requires=[], modifies=['self._buf', 'self._len'],
+                     may_raise={'InsufficientReadException': "len(D) - P < size"},
+                     ensures=["self._buf.pos == P", "self._buf.data[:len(D)] == D", "len(self._buf.data) >= len(D)",
+                              "self._len == len(self._buf.data)", "len(self._buf.data) - P >= size",
+                              "implies(len(D) - P >= size, self._buf.data == D)"])]
 
 
 LEMMAS = ['u32_val', 'u32_bytes', 'u32_arith', 'rep_len', 'rep_first', 'val_be_ff', 'val_be_00', 'concat_init', 'val_be_concat', 'val_be_word', 'val_be_half', 'pow256_4', 'pow256_add']
